@@ -928,6 +928,30 @@ pub fn aba_through_overlay_commits_family() -> Vec<Value> {
     cases
 }
 
+
+/// An overlay deletes a run of on-disk keys that spans several bottom-level branch nodes of the
+/// value tree (seed `wide`: 1500 keys, 500 leaves, three branch nodes) — everything but the greatest
+/// key, everything but the smallest, the middle thousand — and a session on it proves survivors and
+/// deleted keys (the leaf-preimage scan has to hop from one branch node to the next, with and
+/// without an upper bound).
+pub fn overlay_deleting_across_branch_nodes_family(audit: &str) -> Vec<Value> {
+    let mut cfg = rb_cfg(3, 0);
+    cfg.buckets = 4096;
+    let mut cases = vec![];
+    for (start, n) in [(0u64, 1499u64), (1, 1499), (250, 1000), (0, 1500)] {
+        let ops = vec![
+            json!({"ov": {"id": 0, "on": [], "b": [[start, "dn", n]]}}),
+            json!({"ov": {"id": 1, "on": [0], "b": [[(start + n / 2) % 1500, "w", 3]]}}),
+            json!({"ovc": 0}),
+            json!({"ovc": 1}),
+        ];
+        let mut cse = case("wide", vec!["seed:all"], &cfg, audit, ops, 3, true);
+        cse["audit_stride"] = json!(37);
+        cases.push(cse);
+    }
+    cases
+}
+
 pub fn plan_c12(thorough: bool) -> Plan {
     let mut cases = vec![];
     for (seed, uni, batches) in [
@@ -1089,13 +1113,14 @@ pub fn plan_c05(thorough: bool) -> Plan {
     cases.extend(tombstone_family("proofs", thorough));
     cases.extend(disjoint_pages_chain_family("proofs"));
     cases.extend(emptied_and_refilled_cluster_family("proofs"));
+    cases.extend(overlay_deleting_across_branch_nodes_family("proofs"));
     cases.extend(macro_overlay_chains("proofs", if thorough { 3 } else { 2 }));
     add_quiet(&mut cases, if thorough { 1 } else { 2 });
     add_io_reverse(&mut cases, if thorough { 2 } else { 3 });
     sort_by_bound(&mut cases);
     let mut p = Plan::new(
         cases,
-        "histx: all histories of ≤D commits with ≤B key actions {insert, delete} over a 4-key family and over 19/20/21-key merkle clusters (paths crossing elided pages), hash tables of 8/32/4096 buckets, minimum page cache; universe = the keys plus, for each, the absent keys differing in exactly one of bits {0,1,5,6,7,11,12,13,18,127,254,255}; after every commit and after a final reopen (cold cache) every universe key is proven in a fresh session: the proof verifies against session.prev_root() (= reference root) and confirms exactly the model's view (value hash for present keys, non-existence for absent ones); plus sessions layered on overlay chains of depth 1–2 and 3 over the cluster, overlays deleting runs of 1..11 consecutive on-disk keys across several value-leaf pages, chains whose overlays touch disjoint merkle pages, a stored 20-key cluster page emptied by an older overlay and refilled with 1/2/3/19/20/21 keys by a younger one (sessions on both), every chain of two (thorough three) overlays over two stored cluster pages with nine macro batches each (see C11), and the tombstone family (tiny hash tables of 16/32 buckets × 16 bitbox seeds, 10 pages inserted, every single page and every pair of pages removed again, then a cold reopen).",
+        "histx: all histories of ≤D commits with ≤B key actions {insert, delete} over a 4-key family and over 19/20/21-key merkle clusters (paths crossing elided pages), hash tables of 8/32/4096 buckets, minimum page cache; universe = the keys plus, for each, the absent keys differing in exactly one of bits {0,1,5,6,7,11,12,13,18,127,254,255}; after every commit and after a final reopen (cold cache) every universe key is proven in a fresh session: the proof verifies against session.prev_root() (= reference root) and confirms exactly the model's view (value hash for present keys, non-existence for absent ones); plus sessions layered on overlay chains of depth 1–2 and 3 over the cluster, overlays deleting runs of 1..11 consecutive on-disk keys across several value-leaf pages, chains whose overlays touch disjoint merkle pages, a stored 20-key cluster page emptied by an older overlay and refilled with 1/2/3/19/20/21 keys by a younger one (sessions on both), every chain of two (thorough three) overlays over two stored cluster pages with nine macro batches each (see C11), overlays deleting runs of 1000–1500 on-disk keys across three bottom-level branch nodes of the value tree (everything but the greatest key / but the smallest / the middle thousand / everything), and the tombstone family (tiny hash tables of 16/32 buckets × 16 bitbox seeds, 10 pages inserted, every single page and every pair of pages removed again, then a cold reopen).",
     );
     p.budget_s = if thorough { 1700 } else { 55 };
     p
@@ -1203,6 +1228,9 @@ pub fn plan_c13(thorough: bool) -> Plan {
     }
     menu.push(json!({"warm_up": true}));
     menu.push(json!({"io_reverse": true}));
+    for m in [1, 2, 3] {
+        menu.push(json!({"leaf_amnesia": m}));
+    }
     menu.push(json!({"page_cache": 0}));
     menu.push(json!({"page_cache": 1}));
     menu.push(json!({"leaf_cache": 0}));
@@ -1285,6 +1313,7 @@ pub fn plan_c13(thorough: bool) -> Plan {
     // hash-table geometry: small tables, searched bitbox seeds, pages removed and re-inserted
     // around tombstones, cold reopen (the result must not depend on buckets / seed)
     cases.extend(tombstone_family("root", thorough));
+    cases.extend(crate::plans::cold_leaf_insert_family("all", if thorough { 3 } else { 2 }));
     cases.extend(bulk_warm_up_family("all"));
     // a batch over 8000 keys on a COLD store (reopened, nothing read back) with minimum caches: one
     // merkle worker has to keep far more seeks than its in-flight page budget; 1, 2 and 64 workers
@@ -1309,7 +1338,7 @@ pub fn plan_c13(thorough: bool) -> Plan {
     sort_by_bound(&mut cases);
     let mut p = Plan::new(
         cases,
-        "histx: deviation-bounded enumeration of the option space around the default configuration: every configuration with ≤1 (thorough ≤2) option moved to another menu value {commit_concurrency 2,3,5,6,7,16,64,65; warm_up; adversarial device (the I/O workers deliver the completions of a burst newest first); page cache 0/1 MiB; leaf cache 0/1 MiB; io_workers 2,3; hashtable_buckets 1000 (not a power of two), 65536; another bitbox seed; page_cache_upper_levels 0,1,3 with and without prepopulation; rollback on; no cache at all (page cache 0, leaf cache 0, no pinned levels)} × a fixed set of 8 multi-commit histories (one of them with batches of 700 / 600 / 400 keys over 1500 random keys, every key audited) that span several workers' key ranges (one of them a two-leaf trie whose terminals straddle the range boundaries of 3, 5, 6 and 7 workers), plus the tombstone family (16/32-bucket tables × searched bitbox seeds, pages removed and re-inserted, cold reopen), witnessed batches of 650–1300 warmed-up keys with 1 and 2 workers, batches over 8000 keys on a cold store with minimum caches and 1 / 2 / 64 workers (far more seeks than one worker's in-flight page budget), the shared root page, the elision threshold from both sides (19- and 21-key clusters), overflow values, leaf and branch splits/merges, each with a mid-history reopen; every commit is witnessed; oracle: roots, values, proofs for every universe key, witness verification and update replay all equal the reference model (hence equal across configurations). Thread interleavings of the internal workers: every schedule with ≤2 (thorough: all) preemptions of the three merkle update workers of one witnessed commit (worker start, publish child-page roots, hand back the write pass, root-page phase) under the controlled scheduler, two batches (updates / deletes incl. a root-page leaf). Also ALL schedules (a few hundred per batch) of the three beatree leaf-stage workers of one commit whose ranges are three consecutive leaves that all fall below the merge threshold (three batches: two of three values deleted / values shrunk and last leaf deleted / middle leaf deleted), i.e. of the extend-range protocol between neighbouring workers (poll left neighbour, send request, wait for response, wait for left neighbour to conclude, join in completion order): after every schedule the values, root and proofs equal the model and the directory decodes (independent decoder) to exactly the model with every page accounted for. And the branch stage: seed with two bottom branch nodes, one commit deleting 420–440 consecutive keys (≈ 140 leaves) so that the first node falls below the merge threshold and its worker requests nodes from its right neighbour, with three leaf-stage workers running under the scheduler as well (2 batches; every schedule with 0 preemptions quick, ≤1 and a capped ≤2 thorough).",
+        "histx: deviation-bounded enumeration of the option space around the default configuration: every configuration with ≤1 (thorough ≤2) option moved to another menu value {commit_concurrency 2,3,5,6,7,16,64,65; warm_up; adversarial device (the I/O workers deliver the completions of a burst newest first); forgetful leaf cache (leaves with an odd / an even page number are never found; every second lookup misses); page cache 0/1 MiB; leaf cache 0/1 MiB; io_workers 2,3; hashtable_buckets 1000 (not a power of two), 65536; another bitbox seed; page_cache_upper_levels 0,1,3 with and without prepopulation; rollback on; no cache at all (page cache 0, leaf cache 0, no pinned levels)} × a fixed set of 8 multi-commit histories (one of them with batches of 700 / 600 / 400 keys over 1500 random keys, every key audited) that span several workers' key ranges (one of them a two-leaf trie whose terminals straddle the range boundaries of 3, 5, 6 and 7 workers), plus the tombstone family (16/32-bucket tables × searched bitbox seeds, pages removed and re-inserted, cold reopen), witnessed batches of 650–1300 warmed-up keys with 1 and 2 workers, one commit right after a cold reopen mixing reads / rewrites / deletes in the first of two value leaves with inserts of new keys elsewhere (leaf cache 0 / 4 MiB, rollback off: some leaves cached by the session's reads, the others fetched by the leaf stage), batches over 8000 keys on a cold store with minimum caches and 1 / 2 / 64 workers (far more seeks than one worker's in-flight page budget), the shared root page, the elision threshold from both sides (19- and 21-key clusters), overflow values, leaf and branch splits/merges, each with a mid-history reopen; every commit is witnessed; oracle: roots, values, proofs for every universe key, witness verification and update replay all equal the reference model (hence equal across configurations). Thread interleavings of the internal workers: every schedule with ≤2 (thorough: all) preemptions of the three merkle update workers of one witnessed commit (worker start, publish child-page roots, hand back the write pass, root-page phase) under the controlled scheduler, two batches (updates / deletes incl. a root-page leaf). Also ALL schedules (a few hundred per batch) of the three beatree leaf-stage workers of one commit whose ranges are three consecutive leaves that all fall below the merge threshold (three batches: two of three values deleted / values shrunk and last leaf deleted / middle leaf deleted), i.e. of the extend-range protocol between neighbouring workers (poll left neighbour, send request, wait for response, wait for left neighbour to conclude, join in completion order): after every schedule the values, root and proofs equal the model and the directory decodes (independent decoder) to exactly the model with every page accounted for. And the branch stage: seed with two bottom branch nodes, one commit deleting 420–440 consecutive keys (≈ 140 leaves) so that the first node falls below the merge threshold and its worker requests nodes from its right neighbour, with three leaf-stage workers running under the scheduler as well (2 batches; every schedule with 0 preemptions quick, ≤1 and a capped ≤2 thorough).",
     );
     p.budget_s = if thorough { 1700 } else { 55 };
     p.assumptions = vec!["thread interleavings of the internal workers are those the OS scheduler produced in these runs plus the controlled schedules of the schedx engine (see C15 evidence); sequentially-consistent interleavings only".into()];
